@@ -46,7 +46,7 @@ theorem unary_signals_map (rec : Rec) (k : UnKind) (c : Op) (env : Env) (i : Nat
 
 theorem successor_not_started_while_first_runs (rec : Rec) (k : BinKind) (b : Op) (st : BinSt)
     (env : Env) (ra : Res) (h : ra.2.2 = none) :
-    seqAfterFirst rec k b st env ra = (.bin k ra.1 b { st with ph := .running, env := env }, ra.2.1, none) := by
+    seqAfterFirst rec k b st env ra = (.bin k ra.1 b { st with ph := .running, second := false, env := env }, ra.2.1, none) := by
   simp [seqAfterFirst, h]
 
 theorem short_circuit (rec : Rec) (k : BinKind) (b : Op) (st : BinSt) (env : Env) (ra : Res) (o : Outcome)
@@ -88,8 +88,21 @@ theorem when_all_result_rules (st : BinSt) :
 
 /-- only the FIRST failure is recorded (doneOrError_.exchange) -/
 theorem when_all_first_failure_wins (st : BinSt) (isA : Bool) (o : Outcome) (h : st.doe = true) :
-    (waRecord st isA o).1.err = st.err ∧ (waRecord st isA o).1.doe = true := by
+    (waRecord false st isA o).1.err = st.err ∧ (waRecord false st isA o).1.doe = true := by
   cases o <;> cases isA <;> simp [waRecord, h]
+
+/-- when_any: a value that was produced is delivered even if the underlying when_all reports done
+    (because the others were stopped, or the receiver's token was); an error that came first wins -/
+theorem when_any_result_rules (st : BinSt) :
+    (∀ v, st.val = some v → anyResult st .done = .value v) ∧
+    (st.val = none → anyResult st .done = .done) ∧
+    (∀ e, anyResult st (.error e) = .error e) := by
+  refine ⟨fun v h => by simp [anyResult, h], fun h => by simp [anyResult, h], fun e => rfl⟩
+
+/-- when_any stores only the FIRST value -/
+theorem when_any_first_value_wins (st : BinSt) (isA : Bool) (v w : Nat) (h : st.val = some v) :
+    (waRecord true st isA (.value w)).1.val = some v := by
+  cases isA <;> simp [waRecord, h] <;> split <;> simp [h]
 
 /-- stop_when delivers the SOURCE's result, whatever the trigger did -/
 theorem stop_when_source_result (a b : Op) (st : BinSt) (outs : List Out) (o : Outcome)
@@ -110,18 +123,27 @@ theorem connect_height (e : Expr) : (connect e).height = e.height := by
 theorem waStart_inline (rec : Rec) (a b : Op) (env0 : Env) (oa ob : Outcome)
     (ha : (rec (.start { env0 with stoppable := true }) a).2.2 = some oa)
     (hb : (rec (.start { env0 with stopped := env0.stopped || !oa.isValue, stoppable := true }) b).2.2 = some ob) :
-    (waStart rec a b BinSt.init env0).2.2 = some (if env0.stopped then .done else whenAllSpec oa ob) := by
+    (waStart rec .whenAll a b BinSt.init env0).2.2 = some (if env0.stopped then .done else whenAllSpec oa ob) := by
   obtain ⟨s0, sb, tg, ar⟩ := env0
   cases oa <;> cases ob <;> cases s0 <;>
-    simp_all [waStart, waRec, waRecord, markSrc, recIf, waFinish, whenAllResult, whenAllSpec, BinSt.init,
+    simp_all [waStart, waAfterChild, waRec, waRecord_false, markSrc, recIf, waFinish, whenAllResult, whenAllSpec, BinSt.init, BinKind.isAny,
       Outcome.isValue]
+
+theorem anyStart_inline (rec : Rec) (a b : Op) (env0 : Env) (oa ob : Outcome)
+    (ha : (rec (.start { env0 with stoppable := true }) a).2.2 = some oa)
+    (hb : (rec (.start { env0 with stopped := true, stoppable := true }) b).2.2 = some ob) :
+    (waStart rec .whenAny a b BinSt.init env0).2.2 = some (whenAnySpec env0.stopped oa ob) := by
+  obtain ⟨s0, sb, tg, ar⟩ := env0
+  cases oa <;> cases ob <;> cases s0 <;>
+    simp_all [waStart, waAfterChild, waRec, waRecord_true, waRecord_false, markSrc, recIf, waFinish, whenAllResult, anyResult, BinSt.init,
+      BinKind.isAny, whenAnySpec]
 
 theorem swStart_inline (rec : Rec) (a b : Op) (env0 : Env) (oa ob : Outcome)
     (ha : (rec (.start { env0 with stoppable := true }) a).2.2 = some oa)
     (hb : (rec (.start { env0 with stopped := true, stoppable := true }) b).2.2 = some ob) :
     (swStart rec a b BinSt.init env0).2.2 = some oa := by
   obtain ⟨s0, sb, tg, ar⟩ := env0
-  simp_all [swStart, setRa, setRb, markSrc, recIf, swFinish, BinSt.init]
+  simp_all [swStart, swAfterChild, setRa, setRb, markSrc, recIf, swFinish, BinSt.init]
 
 theorem seq_inline (rec : Rec) (k : BinKind) (a b : Op) (env : Env) (oa ob : Outcome)
     (ha : (rec (.start env) a).2.2 = some oa) (hb : (rec (.start (k.succEnv env oa)) b).2.2 = some ob) :
@@ -131,10 +153,10 @@ theorem seq_inline (rec : Rec) (k : BinKind) (a b : Op) (env : Env) (oa ob : Out
   split <;> simp_all
 
 theorem binStep_seq (rec : Rec) (ev : Ev) (k : BinKind) (a b : Op) (st : BinSt)
-    (h1 : k ≠ .whenAll) (h2 : k ≠ .stopWhen) : binStep rec ev k a b st = seqStep rec ev k a b st := by
+    (h1 : k ≠ .whenAll) (h2 : k ≠ .stopWhen) (h3 : k ≠ .whenAny) : binStep rec ev k a b st = seqStep rec ev k a b st := by
   cases k <;> simp_all [binStep]
 
-theorem evalI_seq (k : BinKind) (a b : Expr) (env : Env) (h1 : k ≠ .whenAll) (h2 : k ≠ .stopWhen) :
+theorem evalI_seq (k : BinKind) (a b : Expr) (env : Env) (h1 : k ≠ .whenAll) (h2 : k ≠ .stopWhen) (h3 : k ≠ .whenAny) :
     evalI specs (.bin k a b) env =
       (if k.takes (evalI specs a env) then k.finish (some (evalI specs a env)) (evalI specs b (k.succEnv env (evalI specs a env)))
        else evalI specs a env) := by
@@ -172,13 +194,19 @@ theorem start_refines_evalI (e : Expr) (hI : Inline specs e) :
     | succ n =>
       have hha : a.height < n := by simp [Expr.height] at hf; omega
       have hhb : b.height < n := by simp [Expr.height] at hf; omega
+      by_cases hany : k = .whenAny
+      · subst hany
+        have h1 := iha hI.1 { env with stoppable := true } n hha
+        have h2 := ihb hI.2 { env with stopped := true, stoppable := true } n hhb
+        have := anyStart_inline (deliver specs n) (connect a) (connect b) env _ _ h1 h2
+        simpa [connect, deliver, binStep, waStep, BinSt.init, evalI] using this
       by_cases hwa : k = .whenAll
       · subst hwa
         have h1 := iha hI.1 { env with stoppable := true } n hha
         let sb : Bool := env.stopped || !(evalI specs a { env with stoppable := true }).isValue
         have h2 := ihb hI.2 { env with stopped := sb, stoppable := true } n hhb
         have := waStart_inline (deliver specs n) (connect a) (connect b) env _ _ h1 h2
-        simpa [connect, deliver, binStep, waStep, BinSt.init, evalI] using this
+        simpa [connect, deliver, binStep, waStep, BinSt.init, evalI, BinKind.isAny] using this
       · by_cases hsw : k = .stopWhen
         · subst hsw
           have h1 := iha hI.1 { env with stoppable := true } n hha
@@ -188,8 +216,8 @@ theorem start_refines_evalI (e : Expr) (hI : Inline specs e) :
         · have h1 := iha hI.1 env n hha
           have h2 := ihb hI.2 (k.succEnv env (evalI specs a env)) n hhb
           have := seq_inline (deliver specs n) k (connect a) (connect b) env _ _ h1 h2
-          rw [evalI_seq specs k a b env hwa hsw]
-          simp only [connect, deliver, binStep_seq _ _ k _ _ _ hwa hsw]
+          rw [evalI_seq specs k a b env hwa hsw hany]
+          simp only [connect, deliver, binStep_seq _ _ k _ _ _ hwa hsw hany]
           exact this
 
 /-- non-vacuity / sanity: the spec on a concrete nested expression -/
